@@ -12,6 +12,7 @@ from pyasn1.type import univ
 
 from .. import core, tlc, tlaval, codec_pipeline as P, codec_run as R, stream_pipeline as SP
 from .. import universe as U
+from .. import streams as S
 
 UNIT = 2048
 SIZE_UNITS = 12
@@ -75,14 +76,36 @@ def apalache_inductive(ctx, sc):
 OPS = [(1, 1), (1, 2), (1, 5), (2, 1), (2, 5), (3, 1), (3, 2), (4, 0)]       # (op, n units)
 
 
+# histories on a non-blocking raw stream: units arrive (op 5) between the operations; a read may come back short or as None
+OPS_NB = [(5, 1), (5, 3), (1, 1), (1, 2), (1, 5), (2, 2), (3, 1), (4, 0)]
+
+
 def run_history(hist):
     data = b''.join(bytes([i + 1]) * UNIT for i in range(SIZE_UNITS))
-    w = streaming.CachingStreamWrapper(BlockingRaw(data))
+    nb = bool(hist) and hist[0] == 'nb'
+    if nb:
+        hist = hist[1:]
+        raw = S.GrowingRaw(seekable=False)
+        fed = 0
+    else:
+        raw = BlockingRaw(data)
+    w = streaming.CachingStreamWrapper(raw)
     ev = []
     for op, n in hist:
         first, got = -1, 0
+        if op == 5:
+            k = min(n, SIZE_UNITS - fed)
+            raw.feed(data[fed * UNIT:(fed + k) * UNIT])
+            fed += k
+            t = w.tell()
+            ev += [5, k, -1, 0, t // UNIT if t % UNIT == 0 else -1]
+            continue
         if op in (1, 2):
+            if nb and op == 2 and w.tell() >= len(w._cache.getvalue()) and raw._pos >= len(raw._buf):
+                continue                              # peek() with nothing pending is not defined for a non-blocking source (len(None))
             out = w.read(n * UNIT) if op == 1 else w.peek(n * UNIT)
+            if out is None:
+                out = b''
             got_octets = len(out)
             if got_octets % UNIT or any(out[i * UNIT:(i + 1) * UNIT] != bytes([out[i * UNIT]]) * UNIT
                                          for i in range(got_octets // UNIT)):
@@ -112,18 +135,20 @@ def wrapper_part(ctx, sc):
     if not ctx.quick:
         rnd = random.Random(ctx.seed)
         hists += [tuple(rnd.choice(OPS) for _ in range(12)) for _ in range(20000)]
+    nblocking = len(hists)
+    hists += [('nb',) + h for h in itertools.product(OPS_NB, repeat=L)]
     evs = core.pmap(run_history, hists, chunksize=256)
     path = sc.file('wrap.ndjson')
     n = 0
     seen = set()
     traces = []
-    for h, ev in zip(hists, evs):
-        key = tuple(ev)
+    for k, (h, ev) in enumerate(zip(hists, evs)):
+        key = (k >= nblocking,) + tuple(ev)
         if not ev or key in seen:
             continue
         seen.add(key)
         n += 1
-        traces.append({'id': n, 'size': SIZE_UNITS, 'buf': BUF_UNITS, 'ev': ev})
+        traces.append({'id': n, 'size': SIZE_UNITS, 'buf': BUF_UNITS, 'nb': 1 if k >= nblocking else 0, 'ev': ev})
     # acceptor self-test: corrupt one field
     st = []
     for t in traces[:400]:
@@ -163,6 +188,7 @@ def wrapper_part(ctx, sc):
         ctx.keys.add(('wrap',) + tuple(t['ev'][0::5]))
     ctx.sample({'wrapper history (op,n,first,got,tell)*': traces[len(traces) // 2]['ev']})
     ctx.extra['wrapper_histories'] = len(traces)
+    ctx.extra['wrapper_histories_nonblocking_raw'] = sum(t['nb'] for t in traces)
 
 
 # --------------------------------------------------------------------------- kinds
